@@ -264,6 +264,15 @@ func (i *Install) RunWithContext(ctx context.Context, chrt *chart.Chart, vals ma
 		interactWithRemote = true
 	}
 
+	// Check the values against the schemas of the chart and its enabled subcharts before
+	// anything is sent to the cluster: the CRD pre-install below happens before the render
+	// values are built (and validated again, identically, further down).
+	if !i.SkipSchemaValidation {
+		if _, err := chartutil.ToRenderValuesWithSchemaValidation(chrt, vals, chartutil.ReleaseOptions{Name: i.ReleaseName, Namespace: i.Namespace}, chartutil.DefaultCapabilities, false); err != nil {
+			return nil, err
+		}
+	}
+
 	// Pre-install anything in the crd/ directory. We do this before Helm
 	// contacts the upstream server and builds the capabilities object.
 	if crds := chrt.CRDObjects(); !i.ClientOnly && !i.SkipCRDs && len(crds) > 0 {
